@@ -66,5 +66,8 @@ fn main() {
     // large trees (depth up to 13 quick / 17 thorough): few, short histories
     let lg = ctx.n(12, 16) as u32;
     ctx.prop_split("histories-large-trees", "segtree-history", ctx.n(250, 12_000), ctx.parts(), case_large(None, lg, 40).boxed(), |c| run_case(c, Focus::Fold));
+    // huge trees (height 21..23): SumAdd with non-negative values, prefix-sum oracle
+    ctx.replayer("segtree-huge", |v| run_huge(&serde_json::from_value::<HugeCase>(v.clone()).expect("case"), Focus::Fold));
+    ctx.prop_cfg("huge-trees", "segtree-huge", ctx.n(6, 60), 60, huge_case(vec![1 << 22, (1 << 21) + 1, 3 * (1 << 20) + 5, (1 << 22) + 7], 40), |c| run_huge(c, Focus::Fold));
     ctx.finish();
 }
